@@ -1,11 +1,20 @@
 ------------------------------ MODULE CertTimeTrace ------------------------------
 (* Cross-validation of the calendar oracle against CPython's datetime: records [d, s, y, m, dd, txt]
    computed with datetime/timedelta/strftime; TLC evaluates CertTime on (d, s).  A disagreement
-   means one of the two trusted calendars is wrong (machinery failure, not a property violation). *)
-EXTENDS CertTime, Json, IOUtils, TLCExt, TLC
+   means one of the two trusted calendars is wrong (machinery failure, not a property violation).
+   Records with a field `zone` cross-validate CertTimeZone against zoneinfo: [zone, d, s (an instant), wd, ws, fold
+   (its reading on the zone's clock: astimezone(zone)), rd, rs, rf (some wall-clock reading with a fold, also ambiguous
+   ones and ones inside a gap), id, is (the instant that reading denotes: astimezone(UTC))].                       *)
+EXTENDS CertTimeZone, Json, IOUtils, TLCExt, TLC
 Traces == ndJsonDeserialize(IOEnv.TRACE_FILE)
 VARIABLE tid
-Judge(r) == IF CivilFromDays(r.d) # Date(r.y, r.m, r.dd) THEN 2
+JudgeZone(r) == LET z == ZoneOf(r.zone) IN
+                IF ~KnownAt(r.zone, Inst(r.d, r.s)) \/ ~KnownAt(r.zone, Inst(r.rd, r.rs)) THEN 10
+                ELSE IF WallOf(z, Inst(r.d, r.s)) # [w |-> Inst(r.wd, r.ws), fold |-> r.fold] THEN 11
+                ELSE IF InstOf(z, Inst(r.wd, r.ws), r.fold) # Inst(r.d, r.s) THEN 12
+                ELSE IF InstOf(z, Inst(r.rd, r.rs), r.rf) # Inst(r.id, r.is) THEN 13 ELSE 1
+Judge(r) == IF "zone" \in DOMAIN r THEN JudgeZone(r)
+            ELSE IF CivilFromDays(r.d) # Date(r.y, r.m, r.dd) THEN 2
             ELSE IF DaysFromCivil(r.y, r.m, r.dd) # r.d THEN 3
             ELSE IF Render(Inst(r.d, r.s)) # r.txt THEN 4
             ELSE IF Render(AddSec(Inst(r.d, r.s), r.n)) # r.txt2 THEN 5 ELSE 1
